@@ -182,4 +182,145 @@ theorem prefixEndAux_all255 {p : Bytes} (h : ∀ b ∈ p, b = 255) : prefixEndAu
     have hx := h x (by simp)
     simp [prefixEndAux, ih (fun b hb => h b (by simp [hb])), hx]
 
+/-! ### range bounds (`encodeBound` = `backend.encodeRangeBound`, /repo 146f0bb) -/
+
+/-- Byte 0 is not in the alphabet: a bound over the alphabet is encoded as before (the index key). -/
+theorem encodeBound_of_alphabet {b : Bytes} (hb : Alphabet b) : encodeBound b = encode b 0 := by
+  unfold encodeBound
+  have : ¬ b.getLast? = some 0 := by
+    intro h
+    have hm : (0 : Nat) ∈ b := List.mem_of_getLast? h
+    have := hb 0 hm
+    omega
+  simp [this]
+
+/-- The bound "just after K". -/
+theorem encodeBound_succ (K : Bytes) : encodeBound (K ++ [0]) = encode K (2 ^ 64 - 1) ++ [0] := by
+  simp [encodeBound]
+
+/-- A range bound as an etcd client sends it: a key over the alphabet, or the immediate successor
+`K ++ [0]` of one (continue key of a paginated list, end of a single-key range). -/
+inductive RangeBound : Bytes → Prop where
+  | key {b : Bytes} : Alphabet b → RangeBound b
+  | succ {K : Bytes} : Alphabet K → RangeBound (K ++ [0])
+
+/-- `K ++ [0]` is the immediate successor of `K` in `bytes.Compare` order (all byte strings):
+`k < K ++ [0]` iff `k ≤ K`. -/
+theorem cmp_succ_lt_iff (k K : Bytes) : cmp k (K ++ [0]) = .lt ↔ cmp k K ≠ .gt := by
+  induction K generalizing k with
+  | nil =>
+    cases k with
+    | nil => simp
+    | cons x xs =>
+      by_cases hx : 0 < x
+      · simp [cmp_cons_cons, hx]
+      · have : x = 0 := by omega
+        subst this
+        cases xs <;> simp [cmp_cons_cons]
+  | cons y ys ih =>
+    cases k with
+    | nil => simp
+    | cons x xs =>
+      simp only [List.cons_append, cmp_cons_cons]
+      by_cases h1 : x < y
+      · simp [h1]
+      · by_cases h2 : y < x
+        · simp [h1, h2]
+        · simp only [h1, h2, if_false]
+          exact ih xs
+
+theorem blt_succ_iff (k K : Bytes) : blt k (K ++ [0]) = true ↔ ble k K = true := by
+  rw [blt_iff, ble_iff, cmp_succ_lt_iff]
+
+theorem ble_succ_iff (k K : Bytes) : ble (K ++ [0]) k = true ↔ blt K k = true := by
+  rw [← not_blt_iff_ble, blt_iff, ← cmp_gt_iff]
+  have := blt_succ_iff k K
+  rw [blt_iff, ble_iff] at this
+  cases h : blt k (K ++ [0])
+  · simp only [true_iff]
+    have h' : ¬ cmp k (K ++ [0]) = .lt := by simpa [blt] using h
+    rw [this] at h'
+    cases hc : cmp k K <;> simp_all
+  · simp only [Bool.true_eq_false, false_iff]
+    have h' : cmp k (K ++ [0]) = .lt := by simpa [blt] using h
+    rw [this] at h'
+    exact h'
+
+/-- equal length, not greater, and a non-empty tail on the right: smaller -/
+theorem cmp_append_right_lt {a b t : Bytes} (hl : a.length = b.length) (h : cmp a b ≠ .gt) (ht : t ≠ []) :
+    cmp a (b ++ t) = .lt := by
+  induction a generalizing b with
+  | nil =>
+    cases b with
+    | nil => cases t with
+      | nil => exact absurd rfl ht
+      | cons _ _ => rfl
+    | cons _ _ => simp at hl
+  | cons x xs ih =>
+    cases b with
+    | nil => simp at hl
+    | cons y ys =>
+      simp only [List.cons_append, cmp_cons_cons] at h ⊢
+      by_cases h1 : x < y
+      · simp [h1]
+      · by_cases h2 : y < x
+        · simp [h1, h2] at h
+        · simp only [h1, h2, if_false] at h ⊢
+          exact ih (by simpa using hl) h
+
+/-- The heart of the repaired bound: against the bound "just after K" a record of `k` compares like `k`
+against `K`, a record of `K` itself (whatever its revision) sorting BEFORE the bound. -/
+theorem encode_cmp_succ {k K : Bytes} {r : Nat} (hk : Alphabet k) (hK : Alphabet K) (hr : r < 2 ^ 64) :
+    cmp (encode k r) (encodeBound (K ++ [0])) = if cmp k K = .gt then .gt else .lt := by
+  rw [encodeBound_succ]
+  have e : encode K (2 ^ 64 - 1) ++ [0] = magic ++ (K ++ splitByte :: (be64 (2 ^ 64 - 1) ++ [0])) := by
+    simp [encode]
+  rw [e]
+  unfold encode
+  rw [cmp_append_left, cmp_split splitByte k K _ _ hk hK]
+  by_cases h : k = K
+  · subst h
+    have hle : cmp (be64 r) (be64 (2 ^ 64 - 1)) ≠ .gt := by
+      rw [cmp_be64 hr (by decide), Nat.compare_ne_gt]
+      omega
+    simp [cmp_append_right_lt (by simp [be64]) hle (by simp : ([0] : Bytes) ≠ [])]
+  · have hne : cmp k K ≠ .eq := fun hc => h (cmp_eq_iff.mp hc)
+    simp only [h, if_false]
+    cases hc : cmp k K <;> simp_all
+
+/-- Encoded bounds are ordered like the raw bounds. -/
+theorem encodeBound_lt {a b : Bytes} (ha : RangeBound a) (hb : RangeBound b) (hab : cmp a b = .lt) :
+    cmp (encodeBound a) (encodeBound b) = .lt := by
+  cases ha with
+  | key ha =>
+    cases hb with
+    | key hb =>
+      have hne : a ≠ b := by intro e; rw [e] at hab; simp at hab
+      rw [encodeBound_of_alphabet ha, encodeBound_of_alphabet hb, encode_cmp ha hb (by decide) (by decide)]
+      simp [hne, hab]
+    | succ hK =>
+      rw [encodeBound_of_alphabet ha, encode_cmp_succ ha hK (by decide)]
+      have := (cmp_succ_lt_iff a _).mp hab
+      simp [this]
+  | succ hK =>
+    rename_i K
+    cases hb with
+    | key hb =>
+      rw [encodeBound_of_alphabet hb, cmp_swap (encode b 0), encode_cmp_succ hb hK (by decide)]
+      have h1 : blt K b = true := (ble_succ_iff b K).mp (by rw [ble_iff, hab]; decide)
+      rw [blt_iff, ← cmp_gt_iff] at h1
+      simp [h1]
+    | succ hK' =>
+      rename_i K'
+      -- K ++ [0] < K' ++ [0] means K < K'
+      have hlt : cmp K K' = .lt := by
+        have h1 : ble (K ++ [0]) K' = true := (blt_succ_iff _ _).mp (blt_iff.mpr hab)
+        exact blt_iff.mp ((ble_succ_iff _ _).mp h1)
+      have hne : K ≠ K' := by intro e; rw [e] at hlt; simp at hlt
+      rw [encodeBound_succ, encodeBound_succ]
+      have e1 : ∀ X : Bytes, encode X (2 ^ 64 - 1) ++ [0] = magic ++ (X ++ splitByte :: (be64 (2 ^ 64 - 1) ++ [0])) := by
+        intro X; simp [encode]
+      rw [e1 K, e1 K', cmp_append_left, cmp_split splitByte K K' _ _ hK hK']
+      simp [hne, hlt]
+
 end KB
